@@ -5,7 +5,7 @@
 
 use crate::core::*;
 use crate::rng::{Fnv, Rng};
-use ohsl::{Cmplx, Mat64, Matrix, Vec64, Vector};
+use ohsl::{Cmplx, Mat64, Matrix, Newton, Vec64, Vector};
 use serde_json::{json, Value};
 use std::cell::RefCell;
 
@@ -48,6 +48,10 @@ pub struct Case {
     pub faults: Vec<Fault>,
     /// the callback panics at this (0-based) evaluation
     pub panic_at: Option<usize>,
+    /// history before the call under test (the routine must not remember anything):
+    /// 0 none; 1 the same routine at the same point with a different map;
+    /// 2 a Newton solve (finite-difference Jacobian) that converges onto the point
+    pub prelude: u8,
 }
 
 pub struct C18;
@@ -195,8 +199,42 @@ struct Outcome {
     hist: History,
 }
 
+/// History before the call under test; its results are discarded, its panics ignored.
+fn run_prelude(case: &Case) {
+    let n = case.n;
+    match (case.prelude, case.cmplx) {
+        (1, false) => {
+            let g = |x: Vec64| -> Vec64 { Vector::<f64>::create((0..case.m).map(|i| 7.0 + i as f64 + x.vec.iter().sum::<f64>() * 0.0).collect()) };
+            let _ = catch(|| Mat64::jacobian(Vector::<f64>::create(case.point.clone()), &g, case.delta));
+        }
+        (1, true) => {
+            let g = |z: Vector<Cmplx>| -> Vector<Cmplx> { Vector::<Cmplx>::create((0..case.m).map(|i| Cmplx::new(7.0 + i as f64, z.vec.len() as f64)).collect()) };
+            let p = Vector::<Cmplx>::create(case.point.chunks(2).map(|p| Cmplx::new(p[0], p[1])).collect());
+            let _ = catch(|| Matrix::<Cmplx>::jacobian_cmplx(p, &g, case.delta));
+        }
+        (2, false) => {
+            let target = case.point.clone();
+            let g = |x: Vec64| -> Vec64 { Vector::<f64>::create(x.vec.iter().zip(target.iter()).map(|(a, b)| a - b).collect()) };
+            let mut nw = Newton::<Vec64>::new(Vector::<f64>::create(case.point.iter().map(|v| v + 0.5).collect()));
+            nw.delta(case.delta);
+            nw.iterations(20);
+            let _ = catch(|| nw.solve(&g));
+        }
+        (2, true) => {
+            let target = case.point.clone();
+            let g = |z: Vector<Cmplx>| -> Vector<Cmplx> { Vector::<Cmplx>::create(z.vec.iter().enumerate().map(|(k, c)| Cmplx::new(c.real - target[2 * k], c.imag - target[2 * k + 1])).collect()) };
+            let mut nw = Newton::<Vector<Cmplx>>::new(Vector::<Cmplx>::create((0..n).map(|k| Cmplx::new(case.point[2 * k] + 0.5, case.point[2 * k + 1])).collect()));
+            nw.delta(case.delta);
+            nw.iterations(20);
+            let _ = catch(|| nw.solve(&g));
+        }
+        _ => {}
+    }
+}
+
 /// Run the real Jacobian routine against the scripted environment.
 fn run_real(case: &Case) -> Outcome {
+    run_prelude(case);
     let hist = RefCell::new(History::default());
     let res = if !case.cmplx {
         let f = |x: Vec64| -> Vec64 {
@@ -422,7 +460,8 @@ impl Prop for C18 {
                 panic_at = Some(frng.usize_below(n + 1));
             }
         }
-        Case { cmplx, m, n, point, delta, dyadic, kind, faults, panic_at }
+        let prelude = if dyadic_forced { 0 } else { match frng.below(10) { 0 | 1 => 1, 2 | 3 => 2, _ => 0 } };
+        Case { cmplx, m, n, point, delta, dyadic, kind, faults, panic_at, prelude }
     }
 
     fn execute(&self, case: &Case, stats: &mut Stats) -> Verdict {
@@ -436,6 +475,7 @@ impl Prop for C18 {
         ch.u64(m as u64);
         ch.u64(n as u64);
         ch.u64(case.cmplx as u64);
+        ch.u64(case.prelude as u64);
         ch.f64(case.delta);
         for x in &case.point {
             ch.f64(*x);
@@ -458,6 +498,11 @@ impl Prop for C18 {
             Kind::Smooth { .. } => "probe.kind_smooth",
             Kind::Table { .. } => "probe.kind_table",
         });
+        match case.prelude {
+            1 => stats.count("probe.history_previous_jacobian_same_point"),
+            2 => stats.count("probe.history_newton_solve_onto_point"),
+            _ => {}
+        }
         if case.dyadic {
             stats.count("probe.exact_arithmetic");
         } else {
@@ -572,6 +617,11 @@ impl Prop for C18 {
 
     fn shrink(&self, case: &Case) -> Vec<Case> {
         let mut out = vec![];
+        if case.prelude != 0 {
+            let mut c = case.clone();
+            c.prelude = 0;
+            out.push(c);
+        }
         if case.panic_at.is_some() && !case.faults.is_empty() {
             let mut c = case.clone();
             c.faults.clear();
@@ -641,6 +691,8 @@ impl Prop for C18 {
                 "value": match f.value { 0 => "NaN", 1 => "+Inf", _ => "-Inf" },
             })).collect::<Vec<_>>(),
             "callback_panics_at_evaluation": case.panic_at,
+            "history_before_call": match case.prelude { 1 => "same routine, same point, different map", 2 => "Newton solve (finite-difference Jacobian) of x - point = 0 converging onto the point", _ => "none" },
+            "prelude": case.prelude,
         })
     }
 
@@ -665,6 +717,7 @@ impl Prop for C18 {
                 value: match f["value"].as_str().unwrap_or("NaN") { "NaN" => 0, "+Inf" => 1, _ => 2 },
             }).collect()).unwrap_or_default(),
             panic_at: v["callback_panics_at_evaluation"].as_u64().map(|x| x as usize),
+            prelude: v["prelude"].as_u64().unwrap_or(0) as u8,
         }
     }
 
@@ -684,7 +737,7 @@ impl Prop for C18 {
     }
 
     fn required_probes(&self, _tier: Tier) -> Vec<&'static str> {
-        vec!["m_lt_n", "m_gt_n", "m_eq_n", "complex", "real", "kind_affine", "kind_smooth", "kind_table", "exact_arithmetic", "rounded_arithmetic", "fault_reached_entry"]
+        vec!["m_lt_n", "m_gt_n", "m_eq_n", "complex", "real", "kind_affine", "kind_smooth", "kind_table", "exact_arithmetic", "rounded_arithmetic", "fault_reached_entry", "history_previous_jacobian_same_point", "history_newton_solve_onto_point"]
     }
 }
 
